@@ -141,6 +141,16 @@ def gen(run_seed, tier):
         target = r.randrange(n)
         ops.append({'op': 'thin_announce', 'count': cnt, 'target': target, 'blob': blob})
         lookers = [i for i in range(n) if i != target]
+        # the searching nodes may hold the blob themselves: their own announcement then sits in the storing node's
+        # peer list, somewhere among the pages (own stream: earlier histories are unchanged)
+        r2 = stream('C12.gen.paging_self', run_seed)
+        if r2.random() < 0.6:
+            mine = [{'op': 'announce', 'node': i, 'blob': blob} for i in lookers if r2.random() < 0.8]
+            if r2.random() < 0.5:
+                ops[-1:-1] = mine
+            else:
+                ops.extend(mine)
+            sc['searcher_announces'] = bool(mine)
         for i in lookers:
             ops.append({'op': 'lookup', 'node': i, 'blob': blob, 'wait': 1.0, 'expect_thin': True})
         sc['ops'] = ops
@@ -546,6 +556,8 @@ def run_dht(scenario, run, monitor=False, corrupt_factory=None, max_steps=12_000
                 if op.get('expect_thin'):
                     want = {(t.addr[0], t.tcp_port) for t in thin.get(op['blob'], [])}
                     run.probes['paging_checked'] += 1
+                    if any(rec['node'] == i for rec in announces.get(op['blob'], [])):
+                        run.probes['paging_searcher_is_announcer'] += 1
                     if len(want) > 8:
                         run.probes['paging_multi_page'] += 1
                     missing = want - got
